@@ -41,6 +41,7 @@ type arrInfo struct {
 }
 
 type State struct {
+	hv     string // heap version token for heap-dependent uninterpreted spec functions
 	reach  string
 	heap   map[string]string
 	ghost  map[string]Val
@@ -51,7 +52,7 @@ type State struct {
 }
 
 func (s *State) clone() *State {
-	n := &State{reach: s.reach, top: s.top, heap: map[string]string{}, ghost: map[string]Val{}, larr: map[*ssa.Alloc]*LocalArr{}, held: map[string]bool{}}
+	n := &State{hv: s.hv, reach: s.reach, top: s.top, heap: map[string]string{}, ghost: map[string]Val{}, larr: map[*ssa.Alloc]*LocalArr{}, held: map[string]bool{}}
 	for k, v := range s.heap {
 		n.heap[k] = v
 	}
@@ -142,6 +143,36 @@ type Exec struct {
 	usedLemmas map[string]bool
 	measures map[int]string
 	replayInputs []*inNode
+	callOrd  map[ssa.Instruction]callSite
+	curBlock *ssa.BasicBlock
+	prov     map[string]string // reference term -> "fresh" | "owned"
+	havockedAll bool
+}
+
+// benign: a store at this reference cannot change the wire image of any
+// pre-existing structure (fresh object, or object held in an owned field).
+func (e *Exec) benign(idx string) bool { return e.prov[idx] != "" }
+
+func (e *Exec) bumpHV(st *State) {
+	st.hv = e.S.Fresh("hv", "Int")
+}
+
+type callSite struct {
+	name string
+	k    int
+}
+
+func callShortName(c *ssa.CallCommon) string {
+	if b, ok := c.Value.(*ssa.Builtin); ok {
+		return b.Name()
+	}
+	if c.IsInvoke() {
+		return c.Method.Name()
+	}
+	if f := c.StaticCallee(); f != nil {
+		return f.Name()
+	}
+	return "func"
 }
 
 func (e *Exec) note(f string, a ...interface{}) { e.notes[fmt.Sprintf(f, a...)] = true }
@@ -194,6 +225,9 @@ func (e *Exec) sel(st *State, name, sort, idx string) string {
 }
 
 func (e *Exec) upd(st *State, name, sort, idx, v string) {
+	if !isScratchArr(name) && !e.benign(idx) {
+		e.bumpHV(st)
+	}
 	cur := e.arrTerm(st, name, sort)
 	n := e.S.Fresh(name, "(Array Int "+sort+")")
 	e.S.Assert(sEq(n, sx("store", cur, idx, v)))
@@ -206,16 +240,27 @@ func (e *Exec) havocArr(st *State, name string) {
 		return
 	}
 	st.heap[name] = e.S.Fresh(name, "(Array Int "+sort+")")
+	if strings.HasPrefix(name, "SEQ_") {
+		e.S.Assert(sEq(sx("seq.len", sx("select", st.heap[name], "0")), "0"))
+	}
+	if !isScratchArr(name) {
+		e.bumpHV(st)
+	}
 }
 
 func (e *Exec) havocAll(st *State) {
 	for _, a := range e.allArr {
 		st.heap[a.name] = e.S.Fresh(a.name, "(Array Int "+a.sort+")")
+		if strings.HasPrefix(a.name, "SEQ_") {
+			e.S.Assert(sEq(sx("seq.len", sx("select", st.heap[a.name], "0")), "0"))
+		}
 	}
 	for g, v := range st.ghost {
 		st.ghost[g] = e.freshVal("g_"+g, v.T, v.K)
 	}
 	e.bumpTop(st)
+	e.bumpHV(st)
+	e.havockedAll = true
 }
 
 func (e *Exec) bumpTop(st *State) {
@@ -228,6 +273,7 @@ func (e *Exec) alloc(st *State, prefix string, t types.Type) string {
 	r := e.S.Fresh(prefix, "Int")
 	e.S.Assert(sx(">", r, st.top))
 	st.top = r
+	e.prov[r] = "fresh"
 	if t != nil {
 		e.S.Assert(sEq(sx("typeof", r), sInt(int64(e.P.tagOf(t)))))
 	}
@@ -252,11 +298,22 @@ func (e *Exec) readAt(st *State, name string, ft types.Type, idx string) Val {
 	case KBytes:
 		s := e.sel(st, name+"_s", "String", idx)
 		n := e.sel(st, name+"_n", "Bool", idx)
+		e.S.Assert(sImp(n, sEq(sx("str.len", s), "0")))
 		return vBytes(s, n).withT(ft)
 	case KRef:
 		t := e.S.Define("ld", "Int", e.sel(st, name, "Int", idx))
 		e.S.Assert(sx("<=", t, st.top))
 		e.ptrTypeFact(t, ft)
+		if t != "0" {
+			switch e.P.ownMode(name) {
+			case "owned":
+				e.prov[t] = "owned"
+			case "inherits":
+				if p := e.prov[idx]; p != "" {
+					e.prov[t] = p
+				}
+			}
+		}
 		return vRef(t).withT(ft)
 	case KStruct:
 		stt := ft.Underlying().(*types.Struct)
@@ -566,9 +623,16 @@ func localOrdinal(fn *ssa.Function, target ssa.Instruction, kind string) int {
 
 func (e *Exec) computeOrdinals() {
 	e.ord = map[ssa.Instruction]int{}
+	e.callOrd = map[ssa.Instruction]callSite{}
 	cnt := map[string]int{}
+	ccnt := map[string]int{}
 	for _, b := range e.fn.Blocks {
 		for _, in := range b.Instrs {
+			if ci, ok := in.(ssa.CallInstruction); ok {
+				n := callShortName(ci.Common())
+				ccnt[n]++
+				e.callOrd[in] = callSite{n, ccnt[n]}
+			}
 			k := instrKind(in)
 			if k != "" {
 				cnt[k]++
@@ -730,6 +794,14 @@ func (e *Exec) mergeStates(sts []*State, conds []string) *State {
 		}
 		n.top = e.S.Define("top", "Int", t)
 	}
+	// heap version
+	{
+		t := sts[len(sts)-1].hv
+		for i := len(sts) - 2; i >= 0; i-- {
+			t = sIte(conds[i], sts[i].hv, t)
+		}
+		n.hv = e.S.Define("hv", "Int", t)
+	}
 	// ghost
 	for g := range n.ghost {
 		v := sts[len(sts)-1].ghost[g]
@@ -841,6 +913,9 @@ func (e *Exec) runFrame(fr *Frame, st0 *State) {
 			}
 		}
 		alive := true
+		if fr.top {
+			e.curBlock = b
+		}
 		for _, in := range b.Instrs {
 			if _, ok := in.(*ssa.Phi); ok {
 				continue
